@@ -1,17 +1,17 @@
 CONSTANTS
   MaxId = 3
   Val = {1, 2, 3}
-  Index = {"k", "a"}
+  Index = {"k", "t", "v"}
   Kind <- MCKind
   Terms <- MCTerms
-  InitIdx = {"k", "a"}
-  Wanted <- MCWantedC
+  InitIdx = {"k", "t", "v"}
+  Wanted <- MCWanted
   Stride = 1
   FlushOnCreate = TRUE
   MaxCrash = 1
-  MaxFaults = 0
-  MaxOps = 5
-  OpKinds = {"add", "update", "remove", "flush", "missing"}
+  MaxFaults = 2
+  MaxOps = 4
+  OpKinds = {"add", "update", "remove", "flush"}
   Removable = {}
 SPECIFICATION MCSpec
 INVARIANT TypeOK
